@@ -1,4 +1,15 @@
 #!/bin/sh
-# offline setup: nothing to fetch; sanity-parse the TLA+ modules
-cd "$(dirname "$0")"
-exit 0
+# Offline setup: nothing is fetched or built.  Sanity: every TLA+ module parses (SANY), the harness imports pyrtma from /repo.
+cd "$(dirname "$0")" || exit 1
+rc=0
+cd spec
+for m in Manager_Trace MC_Routing MC_Identity MC_Failures MC_Stats MC_Hostile ClientSys_Trace ClientRead_Trace MC_Layout MC_Imports HashCanon MC_Defs \
+         Validation_Trace Codec_Trace DataLogger_Trace; do
+  if [ -f "$m.tla" ]; then
+    if ! tla-sany "$m.tla" > /tmp/sany_$$.log 2>&1; then echo "SANY failed on $m"; tail -5 /tmp/sany_$$.log; rc=1; fi
+  fi
+done
+rm -f /tmp/sany_$$.log
+cd ..
+/venv/bin/python -c "import sys; sys.path.insert(0, '/repo/src'); import pyrtma, pyrtma.manager, pyrtma.client, pyrtma.parser" || rc=1
+exit $rc
